@@ -174,3 +174,45 @@ func TestImageDimensionsAreCheckedBeforeAllocation(t *testing.T) {
 		}
 	}
 }
+
+// C02 / R2.15: the span and repeat counts of table cells are numbers written in the file. The DOCX and ODT table
+// parsers summed them into a column count and sized slices and loops from it: w:gridSpan or
+// table:number-columns-spanned set to 2^63-1 panicked with "makeslice: len out of range", 2^31 asked for gigabytes.
+func TestTableSpansFromTheFileAreBounded(t *testing.T) {
+	for _, n := range []string{"9223372036854775807", "2147483648", "1000000000"} {
+		docx := docxOf(t, `<w:tbl><w:tr><w:tc><w:tcPr><w:gridSpan w:val="`+n+`"/></w:tcPr><w:p><w:r><w:t>a</w:t></w:r></w:p></w:tc><w:tc><w:p><w:r><w:t>b</w:t></w:r></w:p></w:tc></w:tr></w:tbl>`)
+		odt := odtOf(t, `<table:table><table:table-column table:number-columns-repeated="`+n+`"/><table:table-row><table:table-cell table:number-columns-spanned="`+n+`" table:number-rows-spanned="`+n+`"><text:p>a</text:p></table:table-cell><table:table-cell><text:p>b</text:p></table:table-cell></table:table-row></table:table>`)
+		for name, p := range map[string]string{"docx": docx, "odt": odt} {
+			done := make(chan string, 1)
+			go func() {
+				defer func() {
+					if r := recover(); r != nil {
+						done <- fmt.Sprint("panic: ", r)
+					}
+				}()
+				txt, _, err := tabula.Open(p).Text()
+				if err == nil && !strings.Contains(txt, "a") {
+					done <- "text lost: " + txt
+					return
+				}
+				if _, _, err := tabula.Open(p).ToMarkdown(); err != nil {
+					done <- "markdown: " + err.Error()
+					return
+				}
+				if _, _, err := tabula.Open(p).Document(); err != nil {
+					done <- "document: " + err.Error()
+					return
+				}
+				done <- ""
+			}()
+			select {
+			case msg := <-done:
+				if msg != "" {
+					t.Errorf("%s span %s: %s", name, n, msg)
+				}
+			case <-time.After(20 * time.Second):
+				t.Fatalf("%s span %s: no answer within 20s", name, n)
+			}
+		}
+	}
+}
